@@ -473,6 +473,15 @@ class _PropertyInline(ast.NodeTransformer):
 def normalise(repo: Repo, resolver_factory, max_rounds: int = 3):
     """Return (repo', log): repo with non-reference helpers inlined."""
     log: list[str] = []
+    from sa.dispatch import normalise_dispatch
+    dlog: list[str] = []
+    for name, mod in repo.modules.items():
+        if mod in repo.hand_written():
+            dlog += [f"{name}: {x}" for x in normalise_dispatch(mod.tree)]
+    if dlog:
+        log += dlog
+        repo = Repo(root=repo.root, overlay=repo.overlay, trees={
+            name: mod.tree for name, mod in repo.modules.items()})
     for _ in range(max_rounds):
         new_fns = [f for f in repo.all_functions(hand_written=True)
                    if not is_reference(f) and not isinstance(f.node, ast.Lambda)]
